@@ -36,18 +36,26 @@ PROP = Property(
                      "recording epoch e + 1, previously computed keys are dropped; update_next_signers_with_stake re-reads the set recorded under e and recomputes; precompute_epoch_data Ok ==> both aggregate keys and "
                      "multi-signers are SignerBuilder's results for exactly (current signers, parameters for aggregation) and (next signers, parameters for next aggregation) (also the aggregator path of C06)",
                      ["aggregator MithrilEpochService::inform_epoch", "aggregator MithrilEpochService::update_next_signers_with_stake", "aggregator MithrilEpochService::precompute_epoch_data",
-                      "aggregator MithrilEpochService::get_signers_with_stake_at_epoch", "aggregator MithrilEpochService::unwrap_data"])],
-    replays=[dict(crate="mithril-aggregator", file="mithril-aggregator/src/services/epoch_service.rs", module="replays/c20_aggregator_epoch_service.rs"),
+                      "aggregator MithrilEpochService::get_signers_with_stake_at_epoch", "aggregator MithrilEpochService::unwrap_data"]),
+           VerusUnit("signer_certifier", "verus/C20/signer_certifier.tmpl.rs",
+                     "extracted text of the signer's SignerCertifierService: get_beacon_to_sign Some(b) ==> b is for the time point's epoch and for a signed entity type that is allowed at that time point, not locked and NOT ALREADY SIGNED "
+                     "according to the signed-beacon store (at most one signature per signed entity and beacon); compute_publish_single_signature Ok ==> the signature the single signer computed for THIS message (if any) was published under the "
+                     "beacon's signed entity type and the beacon was marked as signed",
+                     ["signer SignerCertifierService::get_beacon_to_sign", "signer SignerCertifierService::list_available_signed_entity_types", "signer SignerCertifierService::compute_publish_single_signature"])],
+    replays=[dict(crate="mithril-signer", file="mithril-signer/src/services/certifier.rs", module="replays/c20_signer_certifier.rs"),
+             dict(crate="mithril-aggregator", file="mithril-aggregator/src/services/epoch_service.rs", module="replays/c20_aggregator_epoch_service.rs"),
              dict(crate="mithril-signer", file="mithril-signer/src/services/epoch_service.rs", module="replays/c20_signer_epoch_service.rs")],
     assumptions=[
         "signer_gate: the `.iter().any(closure)` over the signer list is a contract fn; key equality (ProtocolKey ==) is an uninterpreted relation; debug!/warn! statements removed; that the state machine consults this gate before signing is read off the source (mithril-signer runtime/runner.rs can_sign_current_epoch)",
         "only the epoch-offset algebra shared by signer and aggregator and the signer-side eligibility gate are decided; epochs < 2^63 - 8 (offset_by casts to i64; real epochs are < 2^32)",
         "both epoch services are under contract for WHICH offset function keys WHICH store access (units signer_gate and aggregator_epoch_service; the offset functions are callee contracts there, proved on the real code by the Kani unit); "
         "the signer's runner (register_signer_to_aggregator / update_stake_distribution: key material and stakes saved under offset_to_recording_epoch) and the aggregator's signer_registration_store / single_signature_repository call sites are read off the source, not proved",
+        "signer_certifier unit: signed-beacon store, configuration provider, entity lock, single signer and publisher (async trait objects) are contract stubs; that mark_beacon_as_signed comes AFTER a successful publish is implied for the Ok "
+        "case only (an Err after marking is not excluded by the contract; the replay test checks it on the real code)",
         "epoch-service units: stores, providers and the era checker (async trait objects) are contract stubs over uninterpreted functions of their content; `.await`, debug!, with_context(..) removed; iterator expressions replaced by contract fns "
         "(Signer::vec_from(x.clone()), stake sums, discriminant intersection, Option::as_mut field assignment, associate_signers_with_stake); Option<..SigningConfig> / BTreeSet fields are opaque Clone types; "
         "inform_epoch requires epoch < u64::MAX (offset_to_recording_epoch adds 1)",
     ],
     explanation="Relational lemmas over the real Epoch offset functions for all epochs: a consistent renumbering of the constants still verifies, an off-by-one on either side fails.",
-    not_decided=["at-most-once signing per beacon", "signing only after registration", "restart behaviour", "acceptance by the aggregator at run level (async state machines over SQLite)"],
+    not_decided=["at-most-once signing per beacon ACROSS restarts and for the SQL of the signed-beacon repository (the per-call rule - never propose an already signed entity, mark after publishing - is under contract)", "signing only after registration as a state-machine behaviour", "restart behaviour", "acceptance by the aggregator at run level (async state machines over SQLite)"],
 )
